@@ -3,7 +3,8 @@
 # usage: cd /verif/coq && sh Proofs/GenTie.build.sh [first-file-to-start-from]
 # The files of the second round start at Gen/PreludeExt and depend on the first round, never the other way:
 #   sh Proofs/GenTie.build.sh Gen/PreludeExt    rebuilds the second (and third) round only.
-#   sh Proofs/GenTie.build.sh Gen/HelpersC      rebuilds the third round (geomdl/evaluators.py) only.
+#   sh Proofs/GenTie.build.sh Gen/HelpersC      rebuilds the third (and fourth) round (geomdl/evaluators.py) only.
+#   sh Proofs/GenTie.build.sh Gen/Compatibility rebuilds the fourth round only.
 cd "$(dirname "$0")/.." || exit 1
 FILES="Gen/Prelude Gen/LinalgInternal Gen/Linalg Gen/Knotvector Gen/Helpers
 Proofs/GenTieLib Proofs/GenTieKnots Proofs/GenTieSpan Proofs/GenTieBasis Proofs/GenTieBasisOne Proofs/GenTieDersOne
@@ -14,7 +15,10 @@ Proofs/GenTieLib2 Proofs/GenTieGeom Proofs/GenTieVoxel Proofs/GenTieBBox Proofs/
 Proofs/GenTieMat Proofs/GenTieMatSolve Proofs/GenTieBinom Proofs/GenTieElev Proofs/GenTieFit Proofs/GenTieDerivCpts Proofs/GenTieArr4 Proofs/GenTieDerivSurf Proofs/GenTieKnotRemove Proofs/GenTieRefine
 Gen/HelpersC Gen/Evaluators Proofs/GenTieEvalLib Proofs/GenTieEvalCurve Proofs/GenTieEvalSurf Proofs/GenTieEvalVol
 Proofs/GenTieBasisAll Proofs/GenTieEvalDerivCurve Proofs/GenTieEvalDerivCurve2 Proofs/GenTieEvalDerivSurf
-Proofs/GenTieEvalDerivSurfRat Proofs/GenTieDerivSurfShape Proofs/GenTieEvalDerivSurf2"
+Proofs/GenTieEvalDerivSurfRat Proofs/GenTieDerivSurfShape Proofs/GenTieEvalDerivSurf2
+Gen/Compatibility Proofs/GenTieCompat Proofs/GenTieFlip
+Gen/OperationsInternal Gen/UtilitiesB Proofs/GenTieFindCtrlpts Proofs/GenTieCheckParams
+Gen/PreludeExt2 Gen/FittingB Proofs/GenTieFitB Proofs/GenTieFitSurf Gen/LinalgB Proofs/GenTieLinAlgB Proofs/GenTieLinAlgSqrt"
 start="$1"; go=1; [ -n "$start" ] && go=0
 for f in $FILES; do
   [ "$f" = "$start" ] && go=1
